@@ -31,7 +31,8 @@ func (k Keeper) WeightedMode(ctx context.Context, reports []types.MicroReport, m
 
 	// find the max frequency
 	for value, frequency := range frequencyMap {
-		if frequency > maxFrequency {
+		// map iteration order is random: values with equal weight are resolved by a fixed rule (the smallest value wins)
+		if frequency > maxFrequency || (frequency == maxFrequency && value < mode) {
 			maxFrequency = frequency
 			mode = value
 		}
